@@ -14,7 +14,12 @@ for md, c in sorted(conf.items()):
     if not c.get("kept"):
         print("skip (not confirmed)", md); continue
     m = re.search(r'wt_(C\d+)/_mutants/(m\d+)', md) or re.search(r'seeded/(C\d+)-(m\d+)', md)
-    prop, mid = m.group(1), m.group(2)
+    wave = 1
+    if m:
+        prop, mid = m.group(1), m.group(2)
+    else:
+        m = re.search(r'w2_(C\d+)/_mutants/m(\d+)', md)  # second wave: m1, m2 -> m3, m4
+        prop, mid, wave = m.group(1), "m%d" % (int(m.group(2)) + 2), 2
     out = f"/verif/seeded/{prop}-{mid}"
     os.makedirs(out, exist_ok=True)
     for fn in ("patch.diff", "demo_test.go", "README.md"):
@@ -35,6 +40,7 @@ for md, c in sorted(conf.items()):
     meta = {
         "id": f"{prop}-{mid}",
         "property": prop,
+        "wave": old_wave if (old_wave := (json.load(open(os.path.join(out, "meta.json"))).get("wave") if os.path.exists(os.path.join(out, "meta.json")) else None)) else (2 if (wave == 2 or mid in ("m3", "m4")) else 1),
         "summary": title,
         "needs_to_manifest": needs,
         "demonstration": {"file": "demo_test.go", "copy_to": c.get("target"), "tests": c.get("tests")},
